@@ -10,6 +10,7 @@ import (
 	"encoding/json"
 	"fmt"
 	"os"
+	"path/filepath"
 	"sort"
 	"strings"
 	"syscall"
@@ -61,6 +62,8 @@ func (r *Run) makeSched(b *BatchSpec) Scheduler {
 		return randSched{NewSplitMix(b.SchedSeed)}
 	case "sticky":
 		return &stickySched{rng: NewSplitMix(b.SchedSeed), den: 4, last: -1}
+	case "serial":
+		return &serialSched{rng: NewSplitMix(b.SchedSeed)}
 	case "preempt":
 		return &preemptSched{A: b.PreemptA, K: b.PreemptK, inner: randSched{NewSplitMix(b.SchedSeed)}}
 	case "preempt2":
@@ -286,7 +289,7 @@ func (r *Run) checkClaims(o *batchOutcome) {
 	won := map[string][]int{}
 	reopen := false
 	for i, c := range o.cmds {
-		if !o.ok[i] && !o.busy[i] && c.Op == "claim" && c.Agent != "" {
+		if !o.ok[i] && !o.busy[i] && c.Op == "claim" && c.Agent != "" && !faulted(o.procs[i]) {
 			r.viol("C01", "claim-failed", sigWord(firstLine(o.procs[i].Stderr)), "claim by %s failed with something other than lock busy: %s", c.Agent, tail(o.procs[i].Stderr))
 		}
 		if c.State != nil && *c.State == "todo" {
@@ -465,6 +468,7 @@ type linIn struct {
 type linOut struct {
 	ok    bool
 	busy  bool
+	ioerr bool // an injected errno reached this process: it may fail (without effect)
 	reply map[string]any
 	human bool
 	first string // first stdout line (human mode ids)
@@ -484,7 +488,7 @@ func (r *Run) checkLinearizable(o *batchOutcome) {
 		}
 		p := o.procs[i]
 		first := strings.TrimSpace(strings.SplitN(string(p.Stdout), "\n", 2)[0])
-		ops = append(ops, porcupine.Operation{ClientId: i, Input: linIn{idx: i, cmd: c}, Call: int64(p.InvokeSeq), Output: linOut{ok: o.ok[i], busy: o.busy[i], reply: o.reply[i], human: c.Human, first: first}, Return: int64(p.ReturnSeq)})
+		ops = append(ops, porcupine.Operation{ClientId: i, Input: linIn{idx: i, cmd: c}, Call: int64(p.InvokeSeq), Output: linOut{ok: o.ok[i], busy: o.busy[i], ioerr: faulted(p), reply: o.reply[i], human: c.Human, first: first}, Return: int64(p.ReturnSeq)})
 		if p.ReturnSeq > maxRet {
 			maxRet = p.ReturnSeq
 		}
@@ -524,7 +528,7 @@ func (r *Run) checkLinearizable(o *batchOutcome) {
 		r.W.Count.Inc("porcupine.illegal")
 		prop := "C02"
 		switch r.Sc.Prop {
-		case "C01", "C06", "C07", "C09", "C11", "C14", "C15", "C16", "C18", "C20":
+		case "C01", "C06", "C07", "C08", "C09", "C11", "C14", "C15", "C16", "C18", "C20":
 			// the batch was generated as this property's conflict scenario
 			prop = r.Sc.Prop
 		}
@@ -556,7 +560,7 @@ func opsOf(cs []Cmd) []string {
 func linStep(m *Model, c Cmd, out linOut, created map[string]*ObsItem) []*Model {
 	pred := m.Predict(c)
 	if !out.ok {
-		if out.busy {
+		if out.busy || out.ioerr {
 			return []*Model{m}
 		}
 		if pred.Class == MustOK {
@@ -651,6 +655,17 @@ type schedPlan struct {
 	seed     uint64
 	a, k     int
 	b, kb    int
+	faults   []Fault
+}
+
+// faulted: did an injected errno reach this process?
+func faulted(p *Proc) bool {
+	for _, e := range p.Events {
+		if strings.HasPrefix(e.Act, "err:") {
+			return true
+		}
+	}
+	return false
 }
 
 func genBatch(prop string, g *Gen, m *Model, rng *SplitMix) []Cmd {
@@ -683,6 +698,13 @@ func genBatch(prop string, g *Gen, m *Model, rng *SplitMix) []Cmd {
 				c.Epic = &e
 			}
 			cmds = append(cmds, c)
+		}
+		if rng.Chance(1, 4) {
+			// "and the oldest such task": a writer after which another task is
+			// the oldest ready one, racing the claimers
+			if w, ok := g.aimOldestChange(m, ""); ok {
+				cmds = append(cmds, w)
+			}
 		}
 		extra := rng.Intn(3)
 		for i := 0; i < extra; i++ {
@@ -882,6 +904,28 @@ func genBatch(prop string, g *Gen, m *Model, rng *SplitMix) []Cmd {
 		if len(cmds) < 3 {
 			cmds = append(cmds, mutation())
 		}
+	case "C08":
+		// claim against a writer after which a different (older) task is the
+		// oldest ready one: dependency finished or unlinked, reopen, move
+		c := Cmd{Op: "claim", Agent: agent()}
+		scope := ""
+		if rng.Chance(1, 3) {
+			scope = g.ref(m, isEpic, false)
+			if scope != "#999" {
+				c.Epic = &scope
+			} else {
+				scope = ""
+			}
+		}
+		cmds = append(cmds, c)
+		if w, ok := g.aimOldestChange(m, scope); ok {
+			cmds = append(cmds, w)
+		} else {
+			cmds = append(cmds, mutation())
+		}
+		if rng.Chance(1, 2) {
+			cmds = append(cmds, Cmd{Op: "claim", Agent: agent()})
+		}
 	case "C16":
 		// replies that are computed from a read of the store: a competitor
 		// changing what they report while the command is under way
@@ -992,7 +1036,7 @@ func runConcSample(bin, prop string, seed uint64, thorough bool) *RunReport {
 	r := NewRun(bin, sc)
 	defer r.Close()
 	r.InitStore()
-	if (prop == "C01" || prop == "C13" || prop == "C02") && rng.Chance(1, 2) {
+	if (prop == "C01" || prop == "C13" || prop == "C02") && rng.Chance(1, 2) || prop == "C08" && rng.Chance(3, 4) {
 		// two-level shapes: epics, tasks inside them, epic-to-epic and
 		// cross-epic dependencies (readiness through the epic level)
 		for _, st := range g.twoLevelPrelude() {
@@ -1056,6 +1100,11 @@ func runConcSample(bin, prop string, seed uint64, thorough bool) *RunReport {
 		}
 		plans = append(plans, schedPlan{strategy: s, seed: rng.Uint64()})
 	}
+	// and two executions without any overlap, in seeded orders: everybody
+	// succeeds, the batch is a sequential history
+	for i := 0; i < 2; i++ {
+		plans = append(plans, schedPlan{strategy: "serial", seed: rng.Uint64()})
+	}
 	// single-preemption sweeps: which processes?
 	var sweepers []int
 	for i, c := range cmds {
@@ -1089,6 +1138,36 @@ func runConcSample(bin, prop string, seed uint64, thorough bool) *RunReport {
 		k := p.NVis
 		for i := 0; i <= k; i++ {
 			plans = append(plans, schedPlan{strategy: "preempt", seed: rng.Uint64(), a: a, k: i})
+		}
+		// I/O errors inside a concurrent batch: a read or open of the log
+		// returns EIO/EMFILE to A while the others
+		// run under a seeded schedule; A must fail without effect (or succeed
+		// completely), and nobody else may be misled. fsync/close errors are not
+		// injected here: whether the data they follow counts is C03's subject.
+		if prop != "C13" && a == sweepers[0] {
+			var cand []*Ev
+			for _, e := range p.VisibleEvents() {
+				if e.IsMutating() && filepath.Base(e.Path) != "lock" {
+					// only calls BEFORE the command's first change to the store:
+					// a failure there must leave no effect at all. What an error
+					// after the first write may leave behind is C03's subject.
+					break
+				}
+				if (e.Op == "read" || e.Op == "pread" || e.Op == "openat") && strings.Contains(e.Path, ".jsonl") {
+					cand = append(cand, e)
+				}
+			}
+			for n := 0; n < 4 && len(cand) > 0; n++ {
+				j := rng.Intn(len(cand))
+				e := cand[j]
+				cand = append(cand[:j], cand[j+1:]...)
+				errno := int(syscall.EIO)
+				if e.Op == "openat" && rng.Chance(1, 2) {
+					errno = int(syscall.EMFILE)
+				}
+				plans = append(plans, schedPlan{strategy: []string{"rand", "sticky", "serial", "serial"}[rng.Intn(4)], seed: rng.Uint64(),
+					faults: []Fault{{Proc: a, K: e.K, Act: fmt.Sprintf("err:%d", errno), Op: e.Op, Note: "errno inside a concurrent batch"}}})
+			}
 		}
 		// two preemptions: a competitor B parked right after taking the lock
 		// while A continues from each of its points k
@@ -1126,7 +1205,10 @@ func runConcSample(bin, prop string, seed uint64, thorough bool) *RunReport {
 	for _, pl := range plans {
 		r.Restore(snap)
 		nv := len(r.VL.V)
-		b := &BatchSpec{Cmds: cmds, Strategy: pl.strategy, SchedSeed: pl.seed, PreemptA: pl.a, PreemptK: pl.k, PreemptB: pl.b, PreemptKB: pl.kb}
+		b := &BatchSpec{Cmds: cmds, Strategy: pl.strategy, SchedSeed: pl.seed, PreemptA: pl.a, PreemptK: pl.k, PreemptB: pl.b, PreemptKB: pl.kb, Faults: pl.faults}
+		if len(pl.faults) > 0 {
+			r.W.Count.Inc("conc.errno_plans")
+		}
 		r.W.IlvHash.Reset()
 		r.W.lastRun = -1
 		r.DoBatch(b)
